@@ -1,19 +1,154 @@
 //go:build verif
 
 // Machine-checked contracts for cmd/thermal-writer (comment-only, tag verif).
+//
+// C18 is decided goroutine by goroutine. Channel operations appear in a function's
+// call trace as makechan / send / recv / select / close; what the two goroutines
+// may assume about each other is only Go's channel semantics (FIFO, every value
+// delivered exactly once, a closed channel yields its queued values first, a
+// receive happens after the matching send) - listed as an assumption in the evidence.
+//   reader side (handleConn): every buffer taken from the pool is filled by exactly
+//     one whole-buffer read from the socket reader and handed to the writer, in that
+//     order, and is not touched otherwise; a failed read closes the queue instead.
+//   writer side (writer): every buffer received is written exactly once, then - and
+//     only then - returned to the pool, and is not touched otherwise; the file is
+//     closed only between frames (rotation) or after the queue was drained.
+// A buffer is therefore held by one party at a time (pool, reader, queue, writer),
+// which is what "a recycled buffer never aliases a frame waiting to be written" needs.
 
 package main
 
-// handleConn (C14, thermal-writer side of the frame socket): the connection is
-// wrapped by exactly one buffered reader; the header parser and the frame reads
-// are the only consumers of that reader, so nothing the header parser buffered
-// beyond the blank line can be lost or re-ordered.
+//@ func logConfig
+//@   mode trusted
+
+// The file: buffered writes; Close flushes before it closes.
+//@ func (bf *bufferedFile) Write
+//@   mode permissive
+//@   requires bf != nil
+//@   ensures [C18] ncalls("Write") == 1 && callarg("Write", 1, 0) == bf.w && callarg("Write", 1, 1) == p && result0 == callres("Write", 1).0 && result1 == callres("Write", 1).1
+
+//@ func (bf *bufferedFile) Close
+//@   mode permissive
+//@   requires bf != nil
+//@   ensures [C18] ncalls("Flush") == 1 && callarg("Flush", 1, 0) == bf.w
+//@   ensures [C18] callres("Flush", 1) != nil ==> result == callres("Flush", 1) && ncalls("Close") == 0
+//@   ensures [C18] callres("Flush", 1) == nil ==> ncalls("Close") == 1 && callarg("Close", 1, 0) == bf.f && result == callres("Close", 1) && callseq("Flush", 1) < callseq("Close", 1)
+
+//@ func newBufferedFile
+//@   mode permissive
+//@   allocates
+//@   ensures [C18] ncalls("Create") == 1 && callarg("Create", 1, 0) == filename
+//@   ensures [C18] callres("Create", 1).1 != nil ==> result0 == nil && result1 == callres("Create", 1).1
+//@   ensures [C18] callres("Create", 1).1 == nil ==> result1 == nil && result0 != nil && result0.f == callres("Create", 1).0 && ncalls("NewWriterSize") == 1 && ref(callarg("NewWriterSize", 1, 0)) == result0.f && result0.w == callres("NewWriterSize", 1)
+
+//@ func newBuilder
+//@   allocates
+//@   requires !isnil(w)
+//@   ensures [C18] fresh(result) && result.w == w
+
+// CPTR sections. Header: "CPTR", version 2, 'H', number of fields, then the fields.
+//@ func (b *Builder) WriteHeader
+//@   mode permissive
+//@   requires b != nil && !isnil(b.w) && f != nil
+//@   ensures [C18] ncalls("Bytes") == 1 && callarg("Bytes", 1, 0) == f && ncalls("Write") >= 1 && ncalls("Write") <= 2
+//@   ensures [C18] callarg("Write", 1, 0) == b.w && len(callarg("Write", 1, 1)) == 7
+//@   ensures [C18] callarg("Write", 1, 1)[0] == 67 && callarg("Write", 1, 1)[1] == 80 && callarg("Write", 1, 1)[2] == 84 && callarg("Write", 1, 1)[3] == 82
+//@   ensures [C18] callarg("Write", 1, 1)[4] == 2 && callarg("Write", 1, 1)[5] == 72 && callarg("Write", 1, 1)[6] == wrap8(callres("Bytes", 1).1)
+//@   ensures [C18] callres("Write", 1).1 != nil ==> ncalls("Write") == 1 && result == callres("Write", 1).1
+//@   ensures [C18] callres("Write", 1).1 == nil ==> ncalls("Write") == 2 && callarg("Write", 2, 0) == b.w && callarg("Write", 2, 1) == callres("Bytes", 1).0 && result == callres("Write", 2).1
+
+// Frame section: 'F', number of fields, the fields (the frame length), then the frame
+// bytes - the caller's slice itself, whole.
+//@ func (b *Builder) WriteFrame
+//@   mode permissive
+//@   requires b != nil && !isnil(b.w) && f != nil
+//@   ensures [C18] ncalls("Bytes") == 1 && callarg("Bytes", 1, 0) == f && ncalls("Write") >= 1 && ncalls("Write") <= 3
+//@   ensures [C18] callarg("Write", 1, 0) == b.w
+//@   ensures [C18] len(callarg("Write", 1, 1)) == 2
+//@   ensures [C18] callarg("Write", 1, 1)[0] == 70
+//@   ensures [C18] callarg("Write", 1, 1)[1] == wrap8(callres("Bytes", 1).1)
+//@   ensures [C18] callres("Write", 1).1 != nil ==> ncalls("Write") == 1 && result == callres("Write", 1).1
+//@   ensures [C18] callres("Write", 1).1 == nil ==> ncalls("Write") >= 2 && callarg("Write", 2, 0) == b.w && callarg("Write", 2, 1) == callres("Bytes", 1).0
+//@   ensures [C18] ncalls("Write") >= 2 && callres("Write", 2).1 != nil ==> ncalls("Write") == 2 && result == callres("Write", 2).1
+//@   ensures [C18] ncalls("Write") >= 2 && callres("Write", 2).1 == nil ==> ncalls("Write") == 3 && callarg("Write", 3, 0) == b.w && callarg("Write", 3, 1) == frameData && result == callres("Write", 3).1
+
+//@ func (b *Builder) Close
+//@   mode permissive
+//@   requires b != nil && !isnil(b.w)
+//@   ensures [C18] ncalls("Close") == 1 && callarg("Close", 1, 0) == b.w && result == callres("Close", 1)
+
+// One frame = one frame section whose only field is the frame length.
+//@ func writeFrame
+//@   mode permissive
+//@   requires b != nil && !isnil(b.w)
+//@   ensures [C18] ncalls("NewFieldWriter") == 1 && ncalls("Uint32") == 1 && callarg("Uint32", 1, 0) == callres("NewFieldWriter", 1) && callarg("Uint32", 1, 1) == 102 && callarg("Uint32", 1, 2) == wrap32(len(frame))
+//@   ensures [C18] ncalls("WriteFrame") == 1 && callarg("WriteFrame", 1, 0) == b && callarg("WriteFrame", 1, 1) == callres("NewFieldWriter", 1) && callarg("WriteFrame", 1, 2) == frame && result == callres("WriteFrame", 1)
+//@   ensures [C18] callseq("Uint32", 1) < callseq("WriteFrame", 1)
+
+//@ func nextFile
+//@   mode permissive
+//@   ensures [C18] ncalls("nextFileName") == 1 && callarg("nextFileName", 1, 0) == outDir && ncalls("newBufferedFile") == 1 && callarg("newBufferedFile", 1, 0) == callres("nextFileName", 1) && result0 == callres("newBufferedFile", 1).0 && result1 == callres("newBufferedFile", 1).1
+
+// A new file starts with the header section, carrying the camera description.
+//@ func newThermalRaw
+//@   mode permissive
+//@   requires conf != nil && h != nil
+//@   ensures [C18] ncalls("nextFile") == 1 && callarg("nextFile", 1, 0) == conf.OutputDir
+//@   ensures [C18] callres("nextFile", 1).1 != nil ==> result0 == nil && result1 == callres("nextFile", 1).1 && ncalls("WriteHeader") == 0
+//@   ensures [C18] callres("nextFile", 1).1 == nil ==> ncalls("newBuilder") == 1 && ref(callarg("newBuilder", 1, 0)) == callres("nextFile", 1).0 && ncalls("WriteHeader") == 1 && callarg("WriteHeader", 1, 0) == callres("newBuilder", 1) && callarg("WriteHeader", 1, 1) == callres("NewFieldWriter", 1)
+//@   ensures [C18] ncalls("WriteHeader") == 1 ==> (callres("WriteHeader", 1) != nil ==> result0 == nil && result1 == callres("WriteHeader", 1)) && (callres("WriteHeader", 1) == nil ==> result0 == callres("newBuilder", 1) && result1 == nil && !isnil(result0.w))
+//@   ensures [C18] ncalls("WriteHeader") == 1 ==> ncalls("Timestamp") == 1 && callarg("Timestamp", 1, 2) == t && ncalls("String") == 3 && ncalls("Uint8") == 2 && ncalls("Uint32") == 3
+//@   ensures [C18] ncalls("WriteHeader") == 1 ==> callarg("String", 1, 2) == h.model && callarg("String", 2, 2) == h.brand && callarg("String", 3, 2) == conf.DeviceName
+//@   ensures [C18] ncalls("WriteHeader") == 1 ==> callarg("Uint8", 1, 2) == wrap8(h.fps)
+//@   ensures [C18] ncalls("WriteHeader") == 1 ==> callarg("Uint32", 1, 2) == wrap32(h.resX) && callarg("Uint32", 2, 2) == wrap32(h.resY)
+//@   ensures [C18] ncalls("WriteHeader") == 1 ==> callarg("Uint8", 2, 2) == 0
+//@   ensures [C18] ncalls("WriteHeader") == 1 ==> callarg("Uint32", 3, 2) == wrap32(conf.DeviceID)
+//@   ensures [C18] ncalls("WriteHeader") == 1 ==> callseq("Uint32", 3) < callseq("WriteHeader", 1)
+//@   ensures result1 == nil ==> result0 != nil && !isnil(result0.w)
+
+// handleConn (C14 and the reader side of C18).
 //@ func handleConn
 //@   mode permissive
-//@   only [C14] conn in NewReader#1
-//@   only [C14] reader in ReadHeaderInfo#1, ReadFull#1
+//@   requires conf != nil && frameLogIntervalFirstMin >= 1 && frameLogInterval >= 1
+//@   only [C14,C18] conn in NewReader#1
+//@   only [C14,C18] reader in ReadHeaderInfo#1, ReadFull#1
+//@   only [C18] frame in ReadFull#1, send#2
+//@   only [C18] writeFrames in writer#1, send#2, close#1, len#1
+//@   only [C18] spentFrames in writer#1, send#1, recv#1
 //@   call ReadHeaderInfo#1 given_after $result.1 == nil ==> $result.0 != nil && $result.0.fps >= 1 && $result.0.framesize >= 0
-//@   call ReadFull#1 assert [C14] ref($0) == reader
-//@   requires frameLogIntervalFirstMin >= 1 && frameLogInterval >= 1
+//@   call makechan#1 assert [C18] $0 == 256
+//@   call makechan#2 assert [C18] $0 == 256
+//@   call send#1 assert [C18] $0 == spentFrames && len($1) == header.framesize && fresh(arr($1)) && ncalls("writer") == 0
+//@   call writer#1 assert [C18] $0 == writeFrames && $1 == conf && $2 == header && $3 == spentFrames && ncalls("send#1") == 256 && ncalls("ReadFull") == 0
+//@   call recv#1 assert [C18] $0 == spentFrames
+//@   call ReadFull#1 assert [C14,C18] ref($0) == reader && $1 == frame && ncalls("recv#1") == ncalls("ReadFull") + 1
+//@   call send#2 assert [C18] $0 == writeFrames && $1 == frame && ncalls("send#2") == ncalls("ReadFull") && siteres("ReadFull", 1).1 == nil
+//@   call close#1 assert [C18] $0 == writeFrames && ncalls("send#2") == ncalls("ReadFull") - 1
 //@   loop 1 invariant header != nil && header.fps >= 1 && header.framesize >= 0 && frameLogIntervalFirstMin >= 1 && frameLogInterval >= 1 && reader != nil
+//@   loop 1 invariant [C18] 0 <= i && i <= 256 && ncalls("send#1") == i && ncalls("writer") == 0 && ncalls("ReadFull") == 0
 //@   loop 2 invariant header != nil && header.fps >= 1 && frameLogIntervalFirstMin >= 1 && frameLogInterval >= 1 && reader != nil
+//@   loop 2 invariant [C18] ncalls("writer") == 1 && ncalls("recv#1") == ncalls("ReadFull") && ncalls("send#2") == ncalls("ReadFull") && ncalls("close") == 0
+//@   check [C18] result != nil
+//@   check [C18] ncalls("writer") == 1 ==> ncalls("close") == 1 && ncalls("send#2") == ncalls("ReadFull") - 1
+
+// writer (the writer side of C18).
+//@ func writer
+//@   mode permissive
+//@   requires conf != nil && h != nil
+//@   only [C18] frame in writeFrame#1, send#1
+//@   only [C18] inFrames in select#1
+//@   only [C18] outFrames in send#1
+//@   panics if (sitehappened("writeFrame", 1) && siteres("writeFrame", 1) != nil) || (sitehappened("newThermalRaw", 2) && siteres("newThermalRaw", 2).1 != nil) || siteres("newThermalRaw", 1).1 != nil
+//@   call select#1 assert [C18] $1 == inFrames && ncalls("written") == ncalls("received") && ncalls("send#1") == ncalls("received")
+//@   call select#1 tally received if $result.0 == 1 && $result.1
+//@   call writeFrame#1 assert [C18] $0 == builder && $1 == frame && ncalls("written") + 1 == ncalls("received")
+//@   call writeFrame#1 tally written if true
+//@   call send#1 assert [C18] $0 == outFrames && $1 == frame && ncalls("written") == ncalls("received") && ncalls("send#1") == ncalls("received") && siteres("writeFrame", 1) == nil
+//@   call newThermalRaw#1 assert [C18] $0 == conf && $2 == h && ncalls("select") == 0
+//@   call Close#1 assert [C18] $0 == builder && ncalls("written") == ncalls("received") && ncalls("closed") == ncalls("opened")
+//@   call Close#1 tally closed if true
+//@   call newThermalRaw#2 assert [C18] $0 == conf && $2 == h && ncalls("closed") == ncalls("opened") + 1
+//@   call newThermalRaw#2 tally opened if true
+//@   call Close#2 assert [C18] $0 == builder && ncalls("written") == ncalls("received") && ncalls("closed") == ncalls("opened") && !siteres("select", 1).1
+//@   loop 1 invariant [C18] builder != nil && !isnil(builder.w) && ncalls("written") == ncalls("received") && ncalls("send#1") == ncalls("received") && ncalls("closed") == ncalls("opened")
+//@   check [C18] ncalls("written") == ncalls("received") && ncalls("send#1") == ncalls("received") && ncalls("Close") >= 1 && ncalls("closed") == ncalls("opened")
